@@ -225,6 +225,22 @@ def i_havoc(I, args, ins):
     return None
 
 
+def i_nondet_url(I, args, ins):
+    ctx = I.ctx
+    tag = _label(args[0])
+    s = ctx.fresh_str(tag, record=True)
+    v = ctx.fresh('net/url.URL', tag + '.fields')
+    return GStructV(v, {'str': s})
+
+
+def i_and(I, args, ins):
+    return core.b_and(args[0], args[1])
+
+
+def i_or(I, args, ins):
+    return core.b_or(args[0], args[1])
+
+
 def i_note(I, args, ins):
     I.ctx.event('note', _label(args[0]), args[1])
     return None
@@ -236,6 +252,7 @@ INTRINSICS = {
     'verifNondetByte': i_nondet_byte, 'verifNondetString': i_nondet_string, 'verifNondetBytes': i_nondet_bytes,
     'verifNondetTime': i_nondet_time, 'verifNondetTimeMs': i_nondet_time_ms,
     'verifNondetDuration': i_nondet_duration, 'verifChoose': i_choose, 'verifHavoc': i_havoc, 'verifNote': i_note,
+    'verifNondetURL': i_nondet_url, 'verifAnd': i_and, 'verifOr': i_or,
 }
 
 
@@ -323,6 +340,8 @@ def run_path(harness, prefix, opts):
     except Exception as e:
         status = 'inconclusive'
         detail = 'engine error: %s\n%s' % (e, traceback.format_exc()[-1500:])
+    if status == 'ok' and (ctx.panic_is_violation or opts.get('panic_is_violation')):
+        ctx.obligations.append({'label': 'no-panic', 'pos': '', 'verdict': 'discharged', 'trivial': True})
     reach_w = None
     if opts.get('want_reach') and ctx.reached and status in ('ok', 'panic') and not any(o['verdict'] != 'discharged' for o in ctx.obligations):
         try:
@@ -372,7 +391,7 @@ def explore(harness, opts, pool=None, max_paths=200000, deadline=None, progress=
 
     def task_opts():
         nsub[0] += 1
-        if nsub[0] <= opts.get('reach_sample', 60) and opts.get('validate_reach', True):
+        if nsub[0] <= opts.get('reach_sample', 300) and opts.get('validate_reach', True):
             return dict(opts, want_reach=True)
         return opts
     pending = [[]]
